@@ -428,11 +428,17 @@ class Impl:
     def op_SSetOff(self, s, c, v):
         self.S[s].setChannelOffset(c, v)
 
+    def op_SSetRange(self, s, c, a, o):
+        self.S[s].setChannelVoltageRange(c, a, o)          # deprecated setter: amplitude and offset in one call
+
     def op_SSetDelay(self, s, c, v):
         self.S[s].setChannelDelay(c, v)
 
     def op_SSetFilter(self, s, c, kind, order, fcut, tau):
-        self.S[s].setChannelFilterCompensation(c, kind, order=(1.5 if order is None else order), f_cut=fcut, tau=tau)
+        if order == 1:          # the documented default: leave it to the library
+            self.S[s].setChannelFilterCompensation(c, kind, f_cut=fcut, tau=tau)
+        else:
+            self.S[s].setChannelFilterCompensation(c, kind, order=(1.5 if order is None else order), f_cut=fcut, tau=tau)
 
     def op_SAddElement(self, s, pos, e):
         self.S[s].addElement(pos, self.E[e])
@@ -549,6 +555,8 @@ class Impl:
         return self.S[s].duration
 
     def op_OSForge(self, s, d, f, t):
+        if (d, f, t) == (True, True, False):
+            return self.S[s].forge()          # the documented defaults: delays and filters on, no time axis
         return self.S[s].forge(apply_delays=d, apply_filters=f, includetime=t)
 
     def op_OSAwg(self, s, ix):
@@ -745,6 +753,30 @@ def compare_plain_dict(a, b):
     if isinstance(a, (list, tuple, np.ndarray)) or isinstance(b, (list, tuple, np.ndarray)):
         return True
     return not (a == b)
+
+
+# ops of the harness that the model sees as a short sequence of its own ops (one implementation call, one observation)
+MACROS = {"SSetRange": lambda s, c, a, o: [("SSetAmp", s, c, a), ("SSetOff", s, c, o)]}
+
+
+def expand_macros(prog):
+    """-> (program for the model, groups): groups[i] = (start, count) of the model ops standing for op i."""
+    out, groups = [], []
+    for op in prog:
+        ops = MACROS[op[0]](*op[1:]) if op[0] in MACROS else [op]
+        groups.append((len(out), len(ops)))
+        out += [tuple(o) for o in ops]
+    return out, groups
+
+
+def collapse_macros(results, groups):
+    """One result per original op: the first exception of its group, otherwise the group's last result."""
+    out = []
+    for start, n in groups:
+        grp = results[start:start + n]
+        errs = [r for r in grp if isinstance(r, Err)]
+        out.append(errs[0] if errs else grp[-1])
+    return out
 
 
 def wait_dust(results):
